@@ -107,7 +107,7 @@ def agenda_hook(fn):
 
 
 @contextlib.contextmanager
-def agenda_summary(ctx, when=lambda cfg: True):
+def agenda_summary(ctx, when=lambda cfg: True, algebraic=False):
     """Closed-form summary of CFG.agenda: the exact least solution when every SCC of the equation
     system is linear (Cramer), OutOfBounds otherwise.  Its contract is what C08 checks.  Used only in
     harnesses whose subject is not the agenda itself; `when(cfg)` lets finite systems run un-stubbed."""
@@ -123,7 +123,11 @@ def agenda_summary(ctx, when=lambda cfg: True):
         used["n"] += 1
         rules = [(ctx.D.term(r.w), r.head, tuple(r.body)) for r in self.rules]
         piv = []
-        Z = O.treesums(rules, set(self.V), ctx.num, piv)
+        alg = [] if algebraic else None
+        Z = O.treesums(rules, set(self.V), ctx.num, piv, algebraic=alg)
+        for c in alg or []:
+            if ctx.symbolic and c is not True:
+                E.ENG.hypothesis(c)
         for p in piv:
             if ctx.symbolic:
                 E.ENG.hypothesis(p > 0)
